@@ -486,6 +486,7 @@ func init() {
 		ch.buf = nb
 		return mkBool(true)
 	})
+	reg("time.runtimeNano", func(e *Exec, c *frame, fn *ssa.Function, a []Value) Value { return Sc{C: 1} })
 	// time.NewTicker: the channel of the ticker has a tick pending or not by symbolic choice each time a select looks
 	// at it (at most 3 ticks per path); Stop and Reset do nothing
 	reg("time.NewTicker", func(e *Exec, c *frame, fn *ssa.Function, a []Value) Value {
